@@ -32,6 +32,7 @@ type c07ex struct {
 	c     *world.Chan
 	fresh int
 
+	tracing    bool
 	swapSeq    int
 	forceNonce string // nonce of the next signed request (op future)
 	futureSeq  int64
@@ -185,6 +186,11 @@ func (e *c07ex) Exec(op string) string {
 		for k := range wd.ACL.UserIDs {
 			delete(wd.ACL.UserIDs, k)
 		}
+		if c07OrigRobot == nil {
+			c07OrigRobot, c07AltRobot = wd.Robot, simpeer.NewIdentity("platformMSP", "client")
+		}
+		wd.Robot = c07OrigRobot
+		e.tracing = false
 		e.c = wd.AddChannel("VT", world.Options{})
 		return "ok"
 	}
@@ -193,7 +199,20 @@ func (e *c07ex) Exec(op string) string {
 	}
 	if w[0] == "tracing" {
 		// the configuration names a trace collector: spans get real, process-local ids from now on
+		e.tracing = true
 		e.c.Reconfigure(world.Options{Tracing: true})
+		return "ok"
+	}
+	if w[0] == "rerobot" {
+		// the robot's certificate is rotated: the channel is initialised again naming the other robot
+		// identity, and from now on that one sends the batches. The process must follow the stored
+		// configuration, like a fresh one does.
+		if wd.Robot == c07OrigRobot {
+			wd.Robot = c07AltRobot
+		} else {
+			wd.Robot = c07OrigRobot
+		}
+		e.c.Reconfigure(world.Options{Tracing: e.tracing})
 		return "ok"
 	}
 	if w[0] == "trace" {
@@ -429,6 +448,9 @@ func (e *c07ex) Exec(op string) string {
 	return "bad-op"
 }
 
+// the two robot identities of op rerobot (the world's own, restored at every reset, and another one)
+var c07OrigRobot, c07AltRobot *simpeer.Identity
+
 var badKinds = []string{"mswap-exp", "mswap-neg", "mswap-second", "mswap-empty", "mswap-huge", "swap-amount", "swap-huge", "swap-hash",
 	"transfer-neg", "transfer-word", "transfer-zero", "transfer-self", "transfer-huge", "transfer-addr", "emit-stranger",
 	"setrate-stranger", "setrate-word", "setfee-stranger", "lock-json", "script-fail"}
@@ -455,6 +477,9 @@ func genC07(c *Cfg, emit func([]string)) {
 			}
 		}
 		for j := 0; j < n; j++ {
+			if c.Rng.Intn(14) == 0 {
+				h = append(h, "rerobot")
+			}
 			mode := pick("cb", "ct", "db", "dt", "dt", "db")
 			switch c.Rng.Intn(17) {
 			case 15, 16:
@@ -488,7 +513,7 @@ func genC07(c *Cfg, emit func([]string)) {
 		h = append(h, "dt meta", "bal")
 		emit(h)
 	}
-	c.Rule = "random histories of committed and simulated-and-dropped proposals (emit, setFee valid/invalid, setFeeAddress, setRate, transfer, multi-write scripts, multi-transfer requests, swap begins, queries, requests whose nonce is 0 s .. 1 day ahead of this machine's clock, and 20 kinds of failing requests: malformed / negative / oversized amounts and asset lists of swaps, multi-swaps, transfers and locks, strangers calling issuer methods, failing scripts) on both routes; every proposal is simulated on the long-lived instance, on a fresh instance and again on the long-lived one and the three results are compared byte for byte; non-trivial = contains a setFee or a transfer"
+	c.Rule = "random histories of committed and simulated-and-dropped proposals (emit, setFee valid/invalid, setFeeAddress, setRate, transfer, multi-write scripts, multi-transfer requests, swap begins, rotations of the robot's certificate by re-initialisation, queries, requests whose nonce is 0 s .. 1 day ahead of this machine's clock, and 20 kinds of failing requests: malformed / negative / oversized amounts and asset lists of swaps, multi-swaps, transfers and locks, strangers calling issuer methods, failing scripts) on both routes; every proposal is simulated on the long-lived instance, on a fresh instance and again on the long-lived one and the three results are compared byte for byte; non-trivial = contains a setFee or a transfer"
 }
 
 func jsonField(p, field string) string {
